@@ -13,7 +13,10 @@ env.import_phylib()
 @st.composite
 def strategy(draw):
     spec = draw(D.dataset_spec(raw=False, features=False, tfeatures=False))
-    return {'k': 'model', 'spec': spec, 'extra_ids': draw(st.lists(st.integers(0, 30), max_size=3))}
+    ns = spec['ns']
+    edits = draw(st.lists(st.tuples(st.integers(0, ns - 1), st.integers(0, 12)), max_size=4))
+    return {'k': 'model', 'spec': spec, 'extra_ids': draw(st.lists(st.integers(0, 30), max_size=3)),
+            'edits': [list(e) for e in edits]}
 
 
 def check(case):
@@ -25,31 +28,44 @@ def check(case):
             st_ = [int(x) for x in T.spike_templates]
             sc = [int(x) for x in T.spike_clusters]
             nt = spec['nt']
-            seen = []
-            for c in sorted(set(sc) | set(case['extra_ids'])):
-                got = must_return('get_cluster_spikes', m.get_cluster_spikes, c)
-                exp = [i for i, x in enumerate(sc) if x == c]
-                require(np.asarray(got).tolist() == exp, 'get_cluster_spikes(%d)' % c,
-                        key='model-cluster-spikes', observed=got, expected=exp)
-                seen.extend(exp)
-                cnt = must_return('get_template_counts', m.get_template_counts, c)
-                e = [sum(1 for i in exp if st_[i] == t) for t in range(nt)]
-                require(np.asarray(cnt).tolist() == e, 'get_template_counts(%d) is not the '
-                        'per-template histogram of length n_templates' % c,
-                        key='model-template-counts', observed=cnt, expected=e)
-            require(sorted(seen) == list(range(len(sc))), 'cluster queries do not partition the spikes',
-                    key='model-partition')
-            for t in sorted(set(range(nt)) | set(case['extra_ids'])):
-                got = must_return('get_template_spikes', m.get_template_spikes, t)
-                exp = [i for i, x in enumerate(st_) if x == t]
-                require(np.asarray(got).tolist() == exp, 'get_template_spikes(%d)' % t,
-                        key='model-template-spikes', observed=got, expected=exp)
+            _queries(m, st_, sc, nt, case)
+            # the in-memory copy of spike_clusters is meant to be updated during manual
+            # clustering: after an in-place edit the queries describe the edited vector
+            if case.get('edits'):
+                for i, c in case['edits']:
+                    m.spike_clusters[i] = c
+                    sc[i] = c
+                _queries(m, st_, sc, nt, case)
         finally:
             m.close()
     return {}
 
 
+def _queries(m, st_, sc, nt, case):
+    seen = []
+    for c in sorted(set(sc) | set(case['extra_ids'])):
+        got = must_return('get_cluster_spikes', m.get_cluster_spikes, c)
+        exp = [i for i, x in enumerate(sc) if x == c]
+        require(np.asarray(got).tolist() == exp, 'get_cluster_spikes(%d)' % c,
+                key='model-cluster-spikes', observed=got, expected=exp)
+        seen.extend(exp)
+        cnt = must_return('get_template_counts', m.get_template_counts, c)
+        e = [sum(1 for i in exp if st_[i] == t) for t in range(nt)]
+        require(np.asarray(cnt).tolist() == e, 'get_template_counts(%d) is not the '
+                'per-template histogram of length n_templates' % c,
+                key='model-template-counts', observed=cnt, expected=e)
+    require(sorted(seen) == list(range(len(sc))), 'cluster queries do not partition the spikes',
+            key='model-partition')
+    for t in sorted(set(range(nt)) | set(case['extra_ids'])):
+        got = must_return('get_template_spikes', m.get_template_spikes, t)
+        exp = [i for i, x in enumerate(st_) if x == t]
+        require(np.asarray(got).tolist() == exp, 'get_template_spikes(%d)' % t,
+                key='model-template-spikes', observed=got, expected=exp)
+
+
 def classify(case, info):
     s = case['spec']
     labels = ['model', 'model:' + ('curated' if s['curation'] else 'un-curated')]
+    if case.get('edits'):
+        labels.append('model:in-place-edit-then-requery')
     return labels, bool(s['curation']) or s['tmpl_dtype'].startswith('u')
